@@ -116,7 +116,7 @@ def run_summary(stratum, seed, index, want_fp):
     r = run_one(stratum, seed, index)
     out = {"wall": time.time() - t0, "status": r.status, "stats": Counter(), "fs": dict(FS.counts), "steps": 0, "transitions": [],
            "source": None, "length": 0, "faulted": False, "nontrivial": None, "fp": None, "sample": None,
-           "violation": None, "ref": r.schedule.get("ref", "inproc")}  # fmt: skip
+           "violation": None, "ref": r.schedule.get("ref", "inproc"), "ids": r.schedule.get("ids", "real")}  # fmt: skip
     if r.sim is None:
         out["stats"]["source_failed:" + (r.error or "")[:50]] += 1
         return out
@@ -186,6 +186,7 @@ def run_chunk(task):
             out["lengths"][r["length"]] += 1
         out["faulted_runs"] += 1 if r["faulted"] else 0
         out["isolated_ref_runs"] += 1 if r["ref"] == "isolated" else 0
+        out["stats"]["runs_with_recycled_ids"] += 1 if r.get("ids") == "recycled" else 0
         if r["nontrivial"]:
             out["nontrivial"].append(r["nontrivial"])
         if r["fp"]:
@@ -374,7 +375,7 @@ def write_replay(seed, m):
     path = os.path.join(REPLAYS, "C14-%d-%s-%d.json" % (seed, m["stratum"], m["index"]))
     doc = {
         "property": PROPERTY, "verif_seed": seed, "stratum": m["stratum"], "run_index": m["index"],
-        "engine": ENGINE, "ref": m["schedule"].get("ref", "inproc"),
+        "engine": ENGINE, "ref": m["schedule"].get("ref", "inproc"), "ids": m["schedule"].get("ids", "real"),
         "source": m["schedule"]["source"], "args": m["schedule"]["args"],
         "steps": m["schedule"]["steps"], "violation": m["violation"], "signature": m["signature"],
         "minimised_from_steps": m["minimised_from_steps"],
@@ -441,7 +442,8 @@ def replay_main(path):
 
     with open(path) as f:
         doc = json.load(f)
-    schedule = {"source": doc["source"], "args": doc["args"], "steps": doc["steps"], "ref": doc.get("ref", "inproc")}
+    schedule = {"source": doc["source"], "args": doc["args"], "steps": doc["steps"], "ref": doc.get("ref", "inproc"),
+                "ids": doc.get("ids", "real")}
     res = execute(schedule)
     if res["violation"] is None:
         print("NOT-REPRODUCED property=%s replay=%s (history ran clean: %s steps, %s checked queries)"
@@ -568,7 +570,7 @@ def regression_items():
         with open(path) as f:
             doc = json.load(f)
         items.append((path, {"source": doc["source"], "args": doc["args"], "steps": doc["steps"],
-                             "ref": doc.get("ref", "inproc")}))
+                             "ref": doc.get("ref", "inproc"), "ids": doc.get("ids", "real")}))
     return items
 
 
@@ -795,6 +797,7 @@ def write_evidence(tier, seed, batch, wall, workers, n_viol, klines, det_info, s
             "runs_with_injected_fault_or_raising_op": batch.faulted_runs,
             "runs_fault_free": batch.runs - batch.faulted_runs,
             "runs_with_isolated_reference": batch.isolated_ref_runs,
+            "runs_with_adversarial_id_allocator": s["runs_with_recycled_ids"],
             "runs_that_changed_process_or_module_state": s["runs_that_changed_process_or_module_state"],
             "runs_rejudged_with_isolated_reference": s["runs_rejudged_with_isolated_reference"],
             "process_or_module_state_changed": pick("state_changed:"),
